@@ -2,7 +2,7 @@
 
 Mechanism contracts on jinja2.ext (real source, symbolic inputs) + bounded stand-ins (contracts/c33_native.py).
 
-  C33.parse_block            InternationalizationExtension._parse_block over a token script of up to 8 tokens (thorough: 10)
+  C33.parse_block            InternationalizationExtension._parse_block over a token script of up to 6 tokens (thorough: 8 and 10)
                              whose types and values are symbolic: returns the referenced names in order and the block text
                              with `%` doubled and every `{{ name }}` replaced by `%(name)s`, stops before the name token of
                              `endtrans` / (when allowed) `pluralize`; every other shape (nested or unknown tag, second
@@ -201,7 +201,7 @@ def make_ext(st, env_fields=None, lazy=None):
 # ------------------------------------------------------------------------------------------------
 # C33.parse_block
 # ------------------------------------------------------------------------------------------------
-N_TOKENS = 8
+N_TOKENS = 6  # quick tier; the 8- and 10-token scripts are thorough-only (the inductive VC is the unbounded form)
 
 
 def parse_block_spec(toks, allow_pluralize):
@@ -934,6 +934,8 @@ class MultiTask:
     def run(self, tier, seed):
         out = []
         for v in self.vcs:
+            if tier == "quick" and getattr(v, "thorough_only", False):
+                continue
             rs = v.run(tier, seed)
             for r in rs:
                 if r.witness is not None and isinstance(r.witness, dict):
@@ -1064,23 +1066,6 @@ class ParseTrans(VC):
             return base_truth(st, v)
 
         I.truth_term = truth_term
-        # set.update with elements whose membership is symbolic: every `add` may fork (pyvc.models.set_method drops
-        # those forks); thread them here
-        base_call_method = I.call_method
-
-        def call_method(st, recv, name, args, kwargs, node=None):
-            if name == "update" and isinstance(recv, Ref) and isinstance(st.get(recv), HSet) and st.get(recv).items is not None and len(args) == 1:
-                results = [(st, None)]
-                for x in I.iter_concrete(st, args[0], node):
-                    nxt = []
-                    for s, _ in results:
-                        nxt += base_call_method(s, recv, "add", [x], {}, node)
-                    results = nxt
-                return results
-            return base_call_method(st, recv, name, args, kwargs, node)
-
-        I.call_method = call_method
-
         def parse_expression(I_, st, args, kwargs, node):
             h = st.get(c.world.stream)
             i = h.fields["_idx"]
@@ -1522,6 +1507,11 @@ def parse_tasks():
         for k1, k2 in ((0, 0), (0, 1), (2, 0)):
             vcs.append(ParseTrans(h, "A", k1, k2))
         vcs.append(ParseTrans(h, "A", 1, 1, ctx=True))
+    for v in vcs:
+        # the larger variants that no quick-tier breakage needs run in the thorough tier only
+        if (v.head_name, v.tail, v.k1, v.k2, v.ctx) in {("bind", "A", 0, 1, False), ("bind", "A", 2, 0, False), ("mod_bind", "A", 1, 1, False),
+                                                         ("var_var_var", "A", 1, 1, False), ("bind", "A", 0, 0, False)}:
+            v.thorough_only = True
     groups = [vcs[i::4] for i in range(4)]
     return [MultiTask(f"C33.parse[group {i}]", g) for i, g in enumerate(groups)]
 
@@ -2291,7 +2281,8 @@ def runtime_tasks():
     return [MultiTask("C33.newstyle", ns), MultiTask("C33.install", inst)]
 
 
-TASKS = [ParseBlock(True), ParseBlock(False), ParseBlock(True, 10), ParseBlock(False, 10), ParseBlockInductive(True), ParseBlockInductive(False),
+TASKS = [ParseBlock(True), ParseBlock(False), ParseBlock(True, 8), ParseBlock(False, 8), ParseBlock(True, 10), ParseBlock(False, 10),
+         ParseBlockInductive(True), ParseBlockInductive(False),
          FnTask(PROP, "C33.parse_block.inductive.buf_usage", parse_block_buf_usage, "table", lambda w: (True, str(w)))] + make_node_tasks() + parse_tasks() + extract_tasks() + runtime_tasks()
 TASKS += NAT.native_tasks()
 
